@@ -116,6 +116,45 @@ func EnableAuthMode(tokenType ua.UserTokenType) Option {
 	}
 }
 
+// securityEnabled reports whether sessions may be used over a secure channel
+// with this security policy and mode: only over the pairs enabled with
+// EnableSecurity.
+//
+// A server created without any EnableSecurity option has always served
+// unsecured channels, and applications rely on it. It keeps serving
+// None/None, and nothing else.
+func (cfg *serverConfig) securityEnabled(policyURI string, mode ua.MessageSecurityMode) bool {
+	if len(cfg.enabledSec) == 0 {
+		return policyURI == ua.SecurityPolicyURINone && mode == ua.MessageSecurityModeNone
+	}
+	for _, sec := range cfg.enabledSec {
+		if sec.secPolicy == policyURI && sec.secMode == mode {
+			return true
+		}
+	}
+	return false
+}
+
+// acceptSecurity decides whether a secure channel is opened with the security
+// policy and mode a client asks for. Besides the enabled pairs an unsecured
+// channel is always opened, because clients look up the endpoints of a server
+// over one (Part 4, 5.4); if None/None is not enabled such a channel is only
+// good for the discovery services, see handleService.
+func (cfg *serverConfig) acceptSecurity(policyURI string, mode ua.MessageSecurityMode) error {
+	if cfg.securityEnabled(policyURI, mode) {
+		return nil
+	}
+	if policyURI == ua.SecurityPolicyURINone && mode == ua.MessageSecurityModeNone {
+		return nil
+	}
+	for _, sec := range cfg.enabledSec {
+		if sec.secPolicy == policyURI {
+			return ua.StatusBadSecurityModeRejected
+		}
+	}
+	return ua.StatusBadSecurityPolicyRejected
+}
+
 func defaultChannelConfig() *uasc.Config {
 	return &uasc.Config{
 		SecurityPolicyURI: ua.SecurityPolicyURINone,
